@@ -346,8 +346,8 @@ func c01Twelve() []c01Shape {
 	return out
 }
 
-var c01Paths = []string{"/", "/a/b", "/a%2Fb", "/a%20b/", "//x", "/%C3%A9"}
-var c01Queries = []string{"", "?a=1&a=2", "?q=%26%3D", "?x=+y"}
+var c01Paths = []string{"/", "/a/b", "/a%2Fb", "/a%20b/", "//x", "/%C3%A9", "/hello!/it's(me)", "/a;p=1/b", "/a+b/~u", "/a/./b/../c", "/a%2fb%3Fc", "/*"}
+var c01Queries = []string{"", "?a=1&a=2", "?q=%26%3D", "?x=+y", "?", "?flag", "?a=b;c=d", "?u=http://x/y?z=1"}
 
 var c01HeaderSets = [][]wire.HeaderLine{
 	{{"X-Multi", "one"}, {"X-Multi", "two"}, {"X-Multi", "three"}},
@@ -420,7 +420,7 @@ func TestVerifC01(t *testing.T) {
 		for _, inst := range []string{"base:/base", "base:/base/", "least_connections", "weighted_round_robin", "ip_hash", "ip_hash_consistent", "ids:req", "ids:trace", "ids:both"} {
 			targets := []string{"/r"}
 			if strings.HasPrefix(inst, "base:") {
-				targets = []string{"/", "/a/b", "/a%2Fb"}
+				targets = []string{"/", "/a/b", "/a%2Fb", "/hello!/it's(me)?q=%26", "/a/./b/../c", "/x%20y/"}
 			}
 			for _, tg := range targets {
 				x := s
